@@ -3,7 +3,7 @@
    exhausted fuel, i.e. the decoder returned a value or an error. *)
 From Coq Require Import NArith List Bool.
 From Coq.Strings Require Import Byte.
-From LOF Require Import Base.Bytes Base.Res Model.Wire Model.Proto Proofs.ProtoP.
+From LOF Require Import Base.Bytes Base.Res Model.Wire Model.Proto Model.Proto2 Proofs.ProtoP Proofs.Proto2P.
 Open Scope N_scope.
 
 (* Ethernet with 802.1Q tag and everything reachable below it (ARP, IPv4 -> ICMP/UDP, IPv6 ->
@@ -31,3 +31,35 @@ Proof. exact dec_chain_safe. Qed.
 Theorem C08_options_terminate : forall fuel n size o, (length o < fuel)%nat -> safe (check_opts fuel n size o).
 Proof. exact check_opts_safe. Qed.
 Print Assumptions C08_chain_terminates.
+
+(* ---- the kinds that are not reached from the Ethernet decoder (Model/Proto2.v) ---- *)
+Theorem C08_igmp12_total : forall d, safe (dec_igmp12 d).            Proof. exact dec_igmp12_safe. Qed.
+Theorem C08_igmp3_query_total : forall d, safe (dec_igmp3q d).       Proof. exact dec_igmp3q_safe. Qed.
+Theorem C08_igmp3_record_total : forall d, safe (dec_gr d).          Proof. exact dec_gr_safe. Qed.
+Theorem C08_igmp3_report_total : forall d, safe (dec_report d).      Proof. exact dec_report_safe. Qed.
+Theorem C08_dhcp_total : forall d, safe (dec_dhcp d).                Proof. exact dec_dhcp_safe. Qed.
+Theorem C08_vlan_total : forall d, safe (dec_vlan d).                Proof. exact dec_vlan_safe. Qed.
+Theorem C08_ipv6_option_total : forall d, safe (dec_v6opt d).        Proof. exact dec_v6opt_safe. Qed.
+Print Assumptions C08_igmp3_report_total.
+Print Assumptions C08_dhcp_total.
+
+(* the loops: every record of a membership report occupies at least 8 bytes of the data and the
+   report decoder advances by what the record occupies, so the announced count (up to 65535)
+   cannot make it iterate more often than the data has bytes; the DHCP option walk consumes at
+   least one byte per option *)
+Theorem C08_report_records_terminate : forall fuel k d, (length d < fuel)%nat -> safe (dec_recs fuel k d).
+Proof. exact dec_recs_safe. Qed.
+Theorem C08_record_occupies_its_bytes : forall d g, dec_gr d = Ok g -> 8 <= size_gr g <= blen d.
+Proof. exact dec_gr_size. Qed.
+Theorem C08_dhcp_options_terminate : forall fuel o, (length o < fuel)%nat -> safe (parse_opts fuel o).
+Proof. exact parse_opts_safe. Qed.
+Print Assumptions C08_report_records_terminate.
+
+(* LLDP: the TLV decoders return (bytes consumed, failed, value) - a value or an error by
+   construction - and never consume more than the data holds (the header decoder re-slices the
+   data at the consumed count) *)
+Theorem C08_lldp_total : forall b, safe (dec_lldp_r b) /\ fst (fst (dec_lldp b)) <= blen b.
+Proof. exact (fun b => conj (res_of_safe (dec_lldp b)) (dec_lldp_consumed b)). Qed.
+Theorem C08_lldp_tlvs_total : forall b, safe (dec_tlv_r b) /\ safe (dec_ttl_r b) /\ fst (fst (dec_tlv b)) <= blen b /\ fst (fst (dec_ttl b)) <= blen b.
+Proof. exact (fun b => conj (res_of_safe (dec_tlv b)) (conj (res_of_safe (dec_ttl b)) (conj (dec_tlv_consumed b) (dec_ttl_consumed b)))). Qed.
+Print Assumptions C08_lldp_total.
